@@ -188,7 +188,7 @@ type callResult struct {
 	returns      int32
 }
 
-const rule = "a loopback gRPC TiKV server whose BatchCommands stream follows a generated script (per-message delays 0-40 ms, answers reversed and split into one message per id, stream broken after k messages once or on every stream, answers for never-sent ids and repeated answers for an already answered id, every n-th request id never answered) serves 1-48 caller goroutines issuing 1-6 calls each through RPCClient.SendRequest: Get requests with a unique payload (the server echoes it), time-outs 60-400 ms, optional cancellation after 1-80 ms, normal / high / low priority, optional forwarded host, and region-wide ResolveLock requests (1 in 5 calls) through the collapsing wrapper; concurrently the connection to the store may be closed (CloseAddr) and finally the client is closed; oracle: every call returns exactly once; a successful Get carries exactly its own payload, a successful ResolveLock a ResolveLock response and a ResolveLock for its own transaction has reached the server (calls use distinct transactions, rollbacks and commits, a few share one); every failure is an error value; no call returns later than its time-out plus 3 s; all callers have returned 20 s after the last one started; non-trivial = a stream break, cancellation or unanswered id happened while at least 2 calls were in flight; distinct = script + call specs"
+const rule = "a loopback gRPC TiKV server whose BatchCommands stream follows a generated script (per-message delays 0-40 ms, answers reversed and split into one message per id, stream broken after k messages once or on every stream, answers for never-sent ids and repeated answers for an already answered id, every n-th request id never answered) serves 1-48 caller goroutines issuing 1-6 calls each through RPCClient.SendRequest: Get requests with a unique payload (the server echoes it), time-outs 60-400 ms, optional cancellation after 1-80 ms, normal / high / low priority, optional forwarded host, and region-wide ResolveLock requests (1 in 5 calls) through the collapsing wrapper; concurrently the connection to the store may be closed (CloseAddr), the client may be shut down midway (Close followed by CloseAddr, 1 case in 5) and is closed at the end; oracle: every call returns exactly once; a successful Get carries exactly its own payload, a successful ResolveLock a ResolveLock response and a ResolveLock for its own transaction has reached the server (calls use distinct transactions, rollbacks and commits, a few share one); every failure is an error value; no call returns later than its time-out plus 3 s; all callers have returned 20 s after the last one started; non-trivial = a stream break, cancellation or unanswered id happened while at least 2 calls were in flight; distinct = script + call specs"
 
 func TestBatchMultiplexing(t *testing.T) {
 	rec := ev.For(t, "C18", rule)
@@ -221,6 +221,13 @@ func TestBatchMultiplexing(t *testing.T) {
 		if rapid.IntRange(0, 4).Draw(t, "closeaddr") == 0 {
 			closeAddrAt = rapid.IntRange(2, 80).Draw(t, "closeaddrat")
 		}
+		// shutdown while callers are at work: the client is closed, and - as the region request sender does after a
+		// failed send - the connection to the address is closed again right afterwards; calls in flight and calls
+		// started later must all return (with "client closed" or any other error, or their answer)
+		shutdownAt := 0
+		if rapid.IntRange(0, 4).Draw(t, "shutdown") == 0 {
+			shutdownAt = rapid.IntRange(2, 120).Draw(t, "shutdownat")
+		}
 		conns := rapid.IntRange(1, 3).Draw(t, "conns")
 		batchWait := rapid.SampledFrom([]time.Duration{0, 0, time.Millisecond}).Draw(t, "batchwait")
 		specs := make([][]callSpec, nCallers)
@@ -235,7 +242,7 @@ func TestBatchMultiplexing(t *testing.T) {
 				specs[i] = append(specs[i], s)
 			}
 		}
-		desc := fmt.Sprintf("script=%+v callers=%d x %d closeAddr@%dms conns=%d batchWait=%v", sc, nCallers, perCaller, closeAddrAt, conns, batchWait)
+		desc := fmt.Sprintf("script=%+v callers=%d x %d closeAddr@%dms shutdown@%dms conns=%d batchWait=%v", sc, nCallers, perCaller, closeAddrAt, shutdownAt, conns, batchWait)
 
 		cfg := *config.GetGlobalConfig()
 		orig := cfg
@@ -290,6 +297,14 @@ func TestBatchMultiplexing(t *testing.T) {
 			go func() {
 				time.Sleep(time.Duration(closeAddrAt) * time.Millisecond)
 				event()
+				_ = rpc.CloseAddr(addr)
+			}()
+		}
+		if shutdownAt > 0 {
+			go func() {
+				time.Sleep(time.Duration(shutdownAt) * time.Millisecond)
+				event()
+				_ = rpc.Close()
 				_ = rpc.CloseAddr(addr)
 			}()
 		}
@@ -374,7 +389,11 @@ func TestBatchMultiplexing(t *testing.T) {
 			}
 			t.Fatalf("calls are blocked far beyond their time-out (25 s after start): %s\n  case: %s", strings.Join(stuck, "; "), desc)
 		}
-		_ = rpc.Close()
+		closed := make(chan struct{})
+		go func() { _ = rpc.Close(); close(closed) }()
+		if _, ok := ev.Await(closed, 400); !ok {
+			t.Fatalf("RPCClient.Close did not return within 40 s after every call had returned\n  case: %s", desc)
+		}
 		var okGet, okResolve, failed, cancelled int
 		for i := range results {
 			for j, r := range results[i] {
@@ -411,11 +430,11 @@ func TestBatchMultiplexing(t *testing.T) {
 				}
 			}
 		}
-		disturbed := srv.breaks.Load() > 0 || sc.StopAtMs > 0 || cancelled > 0 || sc.SilentEvery > 0 || closeAddrAt > 0
+		disturbed := srv.breaks.Load() > 0 || sc.StopAtMs > 0 || cancelled > 0 || sc.SilentEvery > 0 || closeAddrAt > 0 || shutdownAt > 0
 		nt := disturbed && (maxInflightAtEvent.Load() >= 2 || (srv.breaks.Load() > 0 && nCallers >= 2) || (sc.SilentEvery > 0 && nCallers >= 2))
 		rec.Case(desc+fmt.Sprint(specs), nt, []string{
 			fmt.Sprintf("stream-breaks=%v", srv.breaks.Load() > 0), fmt.Sprintf("server-stop=%v", sc.StopAtMs > 0), fmt.Sprintf("cancelled-calls=%v", cancelled > 0),
-			fmt.Sprintf("unanswered-ids=%v", sc.SilentEvery > 0), fmt.Sprintf("close-addr=%v", closeAddrAt > 0), fmt.Sprintf("bogus-answers=%v", sc.Bogus),
+			fmt.Sprintf("unanswered-ids=%v", sc.SilentEvery > 0), fmt.Sprintf("close-addr=%v", closeAddrAt > 0), fmt.Sprintf("shutdown-midway=%v", shutdownAt > 0), fmt.Sprintf("bogus-answers=%v", sc.Bogus),
 			fmt.Sprintf("some-failed=%v", failed > 0), fmt.Sprintf("some-ok=%v", okGet+okResolve > 0), fmt.Sprintf("streams>1=%v", srv.streams.Load() > 1)},
 			map[string]any{"case": desc, "ok_get": okGet, "ok_resolve": okResolve, "failed": failed, "streams": srv.streams.Load(), "time_ms": time.Since(t0).Milliseconds()})
 	})
